@@ -45,6 +45,12 @@ def cases(rng, tier):
     for a in names:
         for b in names:
             out.append("EQHASH N %s %s" % (" ".join(dns.name_toks(a)), " ".join(dns.name_toks(b))))
+    tags = [b"issue", b"ISSUE", b"Issue", b"issue\xff", b"issue\xfe", b"iss\xc3\xa9", b"iss\xc3", b"", b"issuewild"]
+    for a in tags:
+        for b in tags:
+            ra = {"name": [b"ca", b"example"], "class": 1, "ttl": 1, "cf": False, "rdata": ("T", "CAA", [("I", 0), ("B", a), ("B", b"x")])}
+            rb = dict(ra, rdata=("T", "CAA", [("I", 0), ("B", b), ("B", b"x")]))
+            out.append("EQHASH R %s %s" % (" ".join(dns.rr_toks(ra)), " ".join(dns.rr_toks(rb))))
     for _ in range(600 if tier == "quick" else 6000):
         r = dns.gen_rr(rng, [[b"example", b"com"]])
         r2 = dict(r)
